@@ -3,6 +3,7 @@ package zygo
 import (
 	"bytes"
 	"fmt"
+	"math"
 	"github.com/shurcooL/go-goon"
 	"github.com/ugorji/go/codec"
 	"reflect"
@@ -732,10 +733,16 @@ func SexpToGoStructs(
 		//vv("*SexpInt code src.Val='%#v'.. targVa.Elem()='%#v'/Type: %T", src.Val, targVa.Elem().Interface(), targVa.Elem().Interface())
 		switch targVa.Elem().Interface().(type) {
 		case float64:
+			if int64(float64(src.Val)) != src.Val || (src.Val > 0 && float64(src.Val) >= 9223372036854775808.0) {
+				panic(fmt.Errorf("integer %d is not exactly representable in a float64 field", src.Val))
+			}
 			targVa.Elem().SetFloat(float64(src.Val))
 		case int64:
 			targVa.Elem().SetInt(int64(src.Val))
 		default:
+			if k := targVa.Elem().Kind(); k >= reflect.Int && k <= reflect.Int64 && targVa.Elem().OverflowInt(src.Val) {
+				panic(fmt.Errorf("integer %d overflows a field of type %v", src.Val, targVa.Elem().Type()))
+			}
 			targVa.Elem().SetInt(int64(src.Val))
 		}
 	case *SexpStr:
@@ -745,6 +752,9 @@ func SexpToGoStructs(
 	case *SexpFloat:
 		switch targVa.Elem().Interface().(type) {
 		case int64:
+			if src.Val != math.Trunc(src.Val) || src.Val < -9223372036854775808.0 || src.Val >= 9223372036854775808.0 {
+				panic(fmt.Errorf("float %v is not exactly representable in an int64 field", src.Val))
+			}
 			targVa.Elem().SetInt(int64(src.Val))
 		case float64:
 			targVa.Elem().SetFloat(float64(src.Val))
@@ -809,6 +819,9 @@ func SexpToGoStructs(
 						case float64:
 							m[keys] = x
 						case int64:
+							if int64(float64(x)) != x || (x > 0 && float64(x) >= 9223372036854775808.0) {
+								panic(fmt.Errorf("integer %d is not exactly representable in a float64 map value", x))
+							}
 							m[keys] = float64(x)
 						default:
 							panic(fmt.Errorf("val '%v' should have been an float64, but was not.", val))
@@ -834,6 +847,9 @@ func SexpToGoStructs(
 						case float64:
 							m[keyint64] = x
 						case int64:
+							if int64(float64(x)) != x || (x > 0 && float64(x) >= 9223372036854775808.0) {
+								panic(fmt.Errorf("integer %d is not exactly representable in a float64 map value", x))
+							}
 							m[keyint64] = float64(x)
 						default:
 							panic(fmt.Errorf("val '%v' should have been an float64, but was not.", val))
